@@ -106,11 +106,36 @@ func (s *Session) AuthMechanisms() []string {
 }
 
 func (s *Session) Auth(mech string) (sasl.Server, error) {
-	return s.endp.saslAuth.CreateSASL(mech, s.connState.RemoteAddr, func(identity string, data auth.ContextData) error {
+	return saslServer{s.endp.saslAuth.CreateSASL(mech, s.connState.RemoteAddr, func(identity string, data auth.ContextData) error {
 		s.connState.AuthUser = identity
 		s.connState.AuthPassword = data.Password
 		return nil
-	}), nil
+	})}, nil
+}
+
+// saslServer gives the authentication failures proper SMTP codes, go-smtp
+// reports any other error as 454 4.7.0 (temporary) with its text.
+type saslServer struct {
+	sasl.Server
+}
+
+func (srv saslServer) Next(response []byte) ([]byte, bool, error) {
+	challenge, done, err := srv.Server.Next(response)
+	if err != nil && errors.Is(err, auth.ErrInvalidAuthCred) {
+		if exterrors.IsTemporary(err) {
+			return challenge, done, &smtp.SMTPError{
+				Code:         454,
+				EnhancedCode: smtp.EnhancedCode{4, 7, 0},
+				Message:      "Temporary authentication failure",
+			}
+		}
+		return challenge, done, &smtp.SMTPError{
+			Code:         535,
+			EnhancedCode: smtp.EnhancedCode{5, 7, 8},
+			Message:      "Invalid credentials",
+		}
+	}
+	return challenge, done, err
 }
 
 func (s *Session) Reset() {
